@@ -402,7 +402,7 @@ class FeatureListParser(object):
                 continue
 
             if here and not os.path.isabs(filename):
-                filename = os.path.join(here, line)
+                filename = os.path.join(here, filename)
             filename = os.path.normpath(filename)
             if glob.has_magic(filename):
                 # -- WITH WILDCARDS:
